@@ -205,6 +205,13 @@ def corpus():
     # (accepted), 2300 each: channel P would start at 69015 (wrapped to 3479 before the fix) -> must reject
     for n in (2100, 2300):
         out.append(("mds | " + songgen.render({t: [E("NOTE", 10 + (i % 60), 1 + (i % 2), 0) for i in range(n)] for t in range(16)}), ["seq-64k"]))
+    # a drum routine that calls a subroutine, the same subroutine called from the channel too: one converted copy
+    # per drum state, every PAT index and drum slot resolving to the encoding of the named track (seeded change C09-8)
+    for callee in ([E("PAN", 2), E("VOL_REL", 1)], [E("PAN", 2), E("NOTE", 44, 2, 1), E("VOL_REL", 1)], [E("PAN", 1), E("REST", 0, 0, 2)]):
+        for chan_calls in (False, True):
+            song = {0: ([E("JUMP", 110)] if chan_calls else []) + [E("DRUM_MODE", 1), E("NOTE", 83, 2, 1), E("NOTE", 84, 2, 1), E("DRUM_MODE", 0), E("NOTE", 12, 3, 1)],
+                    83: [E("VOL", 5), E("JUMP", 110), E("NOTE", 43, 1, 0)], 84: [E("JUMP", 110), E("VOL", 3), E("NOTE", 45, 1, 0)], 110: callee}
+            out.append(("mds | " + songgen.render(song), ["drum", "sub", "routine-call"]))
     # instruments / envelopes / macro / drum / shared subs in one song
     items = [make_item(k, i) for i, k in enumerate(["fm", "psg", "pitch", "pitchx", "sub", "drum", "macro", "2op"])]
     g, x, s = song_from_items(items, items, "nested")
